@@ -17,6 +17,8 @@ def loadCalls : List (List (String × String)) := [[("#0", "f")]]
 def printStatsDefaults : List (String × String) := [("stream", "None"), ("output_unit", "None"), ("stripzeros", "False"), ("details", "True"), ("summarize", "False"), ("sort", "False"), ("rich", "False")]
 /-- keyword defaults of the signature -/
 def showTextDefaults : List (String × String) := [("output_unit", "None"), ("stream", "None"), ("stripzeros", "False"), ("details", "True"), ("summarize", "False"), ("sort", "False"), ("rich", "False")]
+/-- `kernprof.ContextualProfile.dump_stats` goes through `create_stats()` / `disable()` (inherited, or in its own body) -/
+def contextualDumpSwitchesOff : Bool := false
 /-- `GlobalProfiler.show`: overrides applied to the text-file rendering -/
 def explicitTextOverrides : List (String × String) := [("rich", "0"), ("details", "1")]
 
